@@ -68,6 +68,8 @@ def gen_fn_job(ch, jid, label, allow_stale_docs=False):
     desc = render.gen_desc(ch, "conservative" if ch.chance(label + ".prof", 0.7) else "wide", 1, 6, label)
     spice_names_and_prose(ch, label, desc)
     add_named_type(ch, label, desc)
+    if ch.chance(label + ".nosummary", 0.1):
+        desc["doc"] = ""  # a docstring that opens with its first field / section header
     # python needs non-defaulted positionals first: gen_desc guarantees it
     names = [p["name"] for p in desc["params"]]
     mode = ch.weighted(label + ".docmode", [("all", 2), ("some", 5), ("none", 1.5), ("shuffled", 2)])
@@ -323,7 +325,9 @@ def gen_gen_job(ch, jid, label):
     return {"id": jid, "kind": "gen", "classes": classes, "order": ch.shuffle(label + ".order", list(cnames)), "pick": ch.choice(label + ".pick", cnames),
             "type": ch.weighted(label + ".type", [("class", 4), ("argparse", 1)]),
             "decorators": ch.choice(label + ".dec", [None, ["dataclass"], ["dataclass", "final"]]),
-            "emit_call": ch.chance(label + ".call", 0.3), "name_tpl": ch.choice(label + ".tpl", ["{name}Config", "Gen{name}"])}
+            "emit_call": ch.chance(label + ".call", 0.3), "name_tpl": ch.choice(label + ".tpl", ["{name}Config", "Gen{name}"]),
+            # imports taken over from a file (root-level imports, some of them inside try / if blocks)
+            "imports": ch.choice(label + ".imports", [None, "import os\nfrom typing import Optional\n", "import sys\n\ntry:\n    import json\nexcept ImportError:\n    json = None\n"])}
 
 
 def gen_wrap_job(ch, jid, label):
@@ -853,15 +857,22 @@ class Replica(object):
                 with open(os.path.join(d, mod + ".py"), "wt") as f:
                     f.write(src)
                 outp = os.path.join(d, "out_%s.py" % variant)
+                imports_file = None
+                if job.get("imports"):
+                    imports_file = os.path.join(d, "imports_%s.py" % variant)
+                    with open(imports_file, "wt") as f:
+                        f.write(job["imports"])
                 try:
                     with contextlib.redirect_stdout(io.StringIO()), contextlib.redirect_stderr(io.StringIO()):
                         self.ns.gen.gen(name_tpl=job["name_tpl"], input_mapping=mod + ".MAPPING", type_=job["type"], output_filename=outp,
-                                        emit_call=job["emit_call"], decorator_list=job["decorators"])
+                                        emit_call=job["emit_call"], decorator_list=job["decorators"], imports_from_file=imports_file)
                     with open(outp, "rt") as f:
                         tree = ast.parse(f.read())
                     want = job["name_tpl"].format(name=job["pick"])
                     node = next((n for n in tree.body if getattr(n, "name", None) == want), None)
-                    texts[variant] = "<not emitted>" if node is None else ast.unparse(node)
+                    # the entry's own text, preceded by whatever the run put in front of its first definition (the imports)
+                    preamble = [ast.unparse(n) for n in tree.body[: next((i for i, n in enumerate(tree.body) if hasattr(n, "name")), 0)]]
+                    texts[variant] = "\n".join(preamble + ["<not emitted>" if node is None else ast.unparse(node)])
                 except Exception as e:
                     texts[variant] = "EXC:%s" % type(e).__name__
                 finally:
